@@ -1056,8 +1056,37 @@ def ximage_programs(draw):
     }
 
 
+@st.composite
+def aligned_between_programs(draw):
+    """A forward jump over a section that is aligned more strictly than the sections of the jump and of its target, at a
+    distance just inside the c.j range, with shrinkable calls in front of it: the code in front of the jump shrinks, the
+    aligned section stays put, so the distance GROWS by up to alignment - 2 bytes."""
+    word = st.one_of(st.sampled_from([0, 1, 0xFFFFFFFF, 0x80000000]), st.integers(0, 0xFFFFFFFF))
+    k = draw(st.integers(1, 12))
+    al = draw(st.sampled_from([8, 16, 32, 64]))
+    body = lambda n, f: [draw(_op(1, f, False)) for _ in range(draw(st.integers(0, n)))]  # noqa: E731
+    func = {"kind": "func", "sec": 0, "obj": 0, "align": 0, "pad": draw(st.sampled_from([0, 2, 6])), "link": 1, "body": [draw(_op(1, [], True)) for _ in range(draw(st.integers(0, 2)))]}
+    calls = [["call", 1, "jal"] for _ in range(k)]
+    units = [
+        {"kind": "block", "sec": 0, "obj": 0, "align": 0, "pad": 0, "body": calls + body(2, [1]), "term": ["j", "j", 3]},
+        func,
+        {"kind": "block", "sec": 1, "obj": draw(st.integers(0, 1)), "align": al, "pad": draw(st.sampled_from([0, 2, 4, 10])), "body": body(3, [1]), "term": ["end"]},
+        {"kind": "block", "sec": 2, "obj": draw(st.integers(0, 1)), "align": 0, "pad": 0, "body": body(2, [1]), "term": ["j", draw(st.sampled_from(["j", "J"])), 2]},
+    ]
+    return {
+        "tune": [0, 2046 - 2 * draw(st.integers(0, al // 2 + 2))],
+        "units": units,
+        "order": [0, 3, 2],
+        "layout": {"base": draw(st.sampled_from([0, 0x1000, 0x20000])), "mems": [{"inputs": [["sec", "code0"], ["sec", "code1"], ["sec", "code2"], ["sec", "data"]], "gap": 0}]},
+        "refs": [],
+        "pwords": [draw(word) for _ in range(NPW)],
+        "inits": [[draw(word) for _ in DREGS]],
+    }
+
+
 def cases(big=False):
-    return st.one_of(programs(big), programs(big), programs(big), programs(big), programs(big), programs(big), programs(big), ximage_programs())
+    return st.one_of(programs(big), programs(big), programs(big), programs(big), programs(big), programs(big), programs(big), ximage_programs(),
+                     aligned_between_programs())
 
 
 def apply_exclusions(case, stats=None):
